@@ -858,3 +858,38 @@ Qed.
 
 (* a tiny concrete file: a 12-byte header announcing no data, followed by its checksum *)
 Definition tiny_file : list N := [12; 16; 100; 0; 0; 0; 0; 0; 46; 70; 73; 84]%N.
+
+(* ------------------------------------------------------------ the entry points by name *)
+Corollary Decode_consumed_exact o g rd fuel r : wf rd fuel -> entry_Decode o g rd fuel = TDone r -> dr_err r = None ->
+  rd_pos (dr_rd r) = rd_pos rd + N.to_nat (h_size (dr_hdr r)) + N.to_nat (h_dsize (dr_hdr r)) + 2.
+Proof. intros W D E. exact (decode_consumed_exact o MFull g rd fuel r W (or_introl eq_refl) D E). Qed.
+
+Corollary CheckIntegrity_consumed_exact g rd fuel r : wf rd fuel -> entry_CheckIntegrity false g rd fuel = TDone r -> dr_err r = None ->
+  rd_pos (dr_rd r) = rd_pos rd + N.to_nat (h_size (dr_hdr r)) + N.to_nat (h_dsize (dr_hdr r)) + 2.
+Proof. intros W D E. exact (decode_consumed_exact no_opts MCrcOnly g rd fuel r W (or_intror eq_refl) D E). Qed.
+
+Corollary DecodeHeader_consumed_exact g rd fuel r : wf rd fuel -> entry_DecodeHeader g rd fuel = TDone r -> dr_err r = None ->
+  rd_pos (dr_rd r) = rd_pos rd + N.to_nat (h_size (dr_hdr r)).
+Proof. intros W D E. exact (decode_header_only_exact no_opts g rd fuel r W D E). Qed.
+
+(* DecodeChained does not depend on the chunk schedule either *)
+Corollary chained_schedule_independent o g data t sched1 sched2 ewd1 ewd2 pos1 pos2 fuel1 fuel2 :
+  length data + length sched1 < fuel1 -> length data + length sched2 < fuel2 ->
+  match entry_DecodeChained o g (mk_reader data sched1 t ewd1 pos1) fuel1,
+        entry_DecodeChained o g (mk_reader data sched2 t ewd2 pos2) fuel2 with
+  | TDone c1, TDone c2 => cr_err c1 = cr_err c2 /\ cr_files c1 = cr_files c2 /\ cr_g c1 = cr_g c2 /\ cr_quirks c1 = cr_quirks c2
+  | TPanic w1, TPanic w2 => w1 = w2
+  | TOutOfFuel, TOutOfFuel => True
+  | _, _ => False
+  end.
+Proof.
+  intros H1 H2. unfold entry_DecodeChained. cbn [rd_data].
+  pose proof (decode_chained_abs o fuel1 (S (length data)) g (mk_reader data sched1 t ewd1 pos1) 0 [] [] 0 H1) as A1.
+  pose proof (decode_chained_abs o fuel2 (S (length data)) g (mk_reader data sched2 t ewd2 pos2) 0 [] [] 0 H2) as A2.
+  cbn [rd_data rd_term] in A1, A2. unfold cmatch in *.
+  destruct (decode_chained o g (mk_reader data sched1 t ewd1 pos1) fuel1 0 (S (length data)) [] []) as [c1|w1|];
+    destruct (chained_a o g data t 0 (S (length data)) [] [] 0) as [ca|w|]; try contradiction;
+    destruct (decode_chained o g (mk_reader data sched2 t ewd2 pos2) fuel2 0 (S (length data)) [] []) as [c2|w2|]; try contradiction;
+    try exact I; [|congruence].
+  destruct A1 as (X1 & X2 & X3 & X4 & _). destruct A2 as (Y1 & Y2 & Y3 & Y4 & _). repeat split; congruence.
+Qed.
